@@ -95,7 +95,7 @@ check("C03", "tags are a last-writer-wins map; listing and paging exact", "explo
       "listing, every tag and every digest is compared with the model; listings with every kind of n/last value are followed along their Link chain. TestC03Faults (vfs build): the fault histories of TestC02Faults judged for tags - an acknowledged tag that no later request addressed still resolves to its manifest and the listing equals the set of resolvable tags, on the running server and after Close + New.",
       "Trusted: the model map; byte-order comparison of Go strings as 'lexical order'.",
       "DESIGN.md §3 C03",
-      [R("^TestC03$", 4000, 80000, steps=40)])
+      [R("^TestC03$", 4000, 80000, steps=40), R("^TestC03Faults$", 8000, 300000, variant="vfs")])
 
 check("C04", "only complete, well-formed manifests accepted; refusals change nothing", "exploration",
       "rapid generator of valid manifests + structural/byte mutations; oracle = independent acceptance predicate + before/after snapshot equality (API battery + file tree)",
